@@ -247,7 +247,7 @@ theorem struct_meets_spec (c : Case) (hwf : wf c = true) (hk : known c = []) : s
   have hmh : (model c).hookCalls = hookCalls c := rfl
   unfold spec
   simp only [Bool.and_eq_true]
-  refine ⟨⟨⟨⟨⟨⟨⟨⟨⟨⟨⟨⟨⟨⟨⟨⟨⟨⟨⟨spec_keys c hb, spec_slotCount c hn hl⟩, ?_⟩, ?_⟩, ?_⟩, spec_setUnknown c⟩,
+  refine ⟨⟨⟨⟨⟨⟨⟨⟨⟨⟨⟨⟨⟨⟨⟨⟨⟨⟨⟨⟨spec_keys c hb, spec_slotCount c hn hl⟩, ?_⟩, ?_⟩, ?_⟩, spec_setUnknown c⟩, rfl⟩,
     spec_demanded c hb⟩, calls_all_new c hb hw⟩, spec_cells c hw⟩, hcached.1.1.1⟩, hcached.1.1.2⟩,
     hcached.1.2⟩, hcached.2⟩, ?_⟩, ?_⟩, ?_⟩, ?_⟩, ?_⟩, ?_⟩, ?_⟩
   · have : (model c).hasDict = instHasDict c := rfl
